@@ -100,7 +100,7 @@ register('C09', 'translation_validation',
          "arbitrary valid buffer covers runs of any length; the zero pre-history is the initial buffer (checked "
          "concretely). Run level: the real Euler/Heun kernels integrate the emitted (stateful) text for K steps on symbolic "
          "state; afterwards every ring buffer must hold its source's recorded trajectory shifted by one slot per STEP "
-         "(the Heun kernel evaluates the field twice per step: recorded finding).",
+         "(the Heun kernel evaluates the field twice per step and has to restore them, also for a decorated function).",
          "reals for floats; delays rounding to 2..4 (quick) / 2..6 (thorough) steps, <= 5 nodes, <= 5 edges; buffers are "
          "identified by a concrete marker run (a cell receives another cell's marker); Connectivity ring buffers are "
          "handled under C16; JAX refuses ring buffers (C20)",
@@ -126,7 +126,7 @@ register('C10', 'translation_validation',
          "symbolically with an uninterpreted delayed vector field and proved equal to the method-of-steps iterates with "
          "constant pre-history.",
          "reals for floats; convergence of dopri5 / solve_ivp to the DDE solution is NOT claimed (third-party adaptive "
-         "integrators); DDEHistory's interpolation is C19; kernel bound: steps <= 6/10, delay 1..3 steps (multiples of dt), "
+         "integrators); DDEHistory's interpolation is C19; kernel bound: steps <= 6/10, delay 0..3 steps (multiples of dt), a complex128 state as a concrete probe, "
          "history capacity lowered to 2 in some kernels so that the buffer grows during the run (a job whose symbolic run "
          "breaks down on a never-written row is decided by the float replay on the real kernel); equal-valued delay "
          "parameters are told apart by calling the function with another value for one of them",
